@@ -11,6 +11,15 @@ From Bnum.Proofs Require Import DigitTie ImpLemmas.
 
 (* ================= (a) src/buint/overflowing.rs ================= *)
 
+(* the source may bind the digit-level result as `let result = f(..)` + `.0/.1` or as `let (d, c) = f(..)`: in the second
+   shape the generated body matches on the pair; destruct it (both sides mention the same application) *)
+Ltac step_pairs :=
+  repeat match goal with
+         | |- context [match ?e with pair _ _ => _ end] =>
+             change (DigitGen.carrying_add) with carrying_add in *; change (DigitGen.borrowing_sub) with borrowing_sub in *;
+             match goal with |- context [match ?e' with pair _ _ => _ end] => destruct e' end; cbn [fst snd bind]
+         end.
+
 Lemma add_loop_scan2 w a b c : add_loop w a b c = scan2 (carrying_add w) a b c.
 Proof.
   revert b c. induction a as [|x a IH]; intros b c; [reflexivity|].
@@ -35,7 +44,7 @@ Proof.
   rewrite (loop_scan2_all (carrying_add w) a b); try first [assumption | apply repeat_length | reflexivity].
   - cbn [bind]. unfold U_overflowing_add. rewrite add_loop_scan2.
     destruct (scan2 (carrying_add w) a b false). reflexivity.
-  - intros out c j Hj Hl. body_red. rewrite !arr_get_nat by lia. cbn [bind].
+  - intros out c j Hj Hl. body_red. rewrite !arr_get_nat by lia. cbn [bind]. step_pairs.
     rewrite arr_set_nat by lia. reflexivity.
 Qed.
 
@@ -47,7 +56,7 @@ Proof.
   rewrite (loop_scan2_all (borrowing_sub w) a b); try first [assumption | apply repeat_length | reflexivity].
   - cbn [bind]. unfold U_overflowing_sub. rewrite sub_loop_scan2.
     destruct (scan2 (borrowing_sub w) a b false). reflexivity.
-  - intros out c j Hj Hl. body_red. rewrite !arr_get_nat by lia. cbn [bind].
+  - intros out c j Hj Hl. body_red. rewrite !arr_get_nat by lia. cbn [bind]. step_pairs.
     rewrite arr_set_nat by lia. reflexivity.
 Qed.
 
